@@ -60,6 +60,7 @@ type Program struct {
 	initDecls     []string
 	audits        []map[string]interface{}
 	selftest      []map[string]interface{}
+	benign        []map[string]interface{}
 	groundDone    bool
 	groundObls    []*Obligation
 	listFacts     map[string]bool
@@ -68,6 +69,7 @@ type Program struct {
 	extConsts     map[string]bool
 	extErrs       map[string]bool
 	provedDeps    map[string]bool
+	localsTable   map[string]map[string]localType
 }
 
 func LoadProgram(repo string) (*Program, error) {
@@ -640,4 +642,33 @@ func (p *Program) onceOfLiteral(fn *ssa.Function) *ssa.Global {
 		}
 	}
 	return nil
+}
+
+type localType struct {
+	Type    string `json:"type"`
+	Ordinal int    `json:"ordinal"`
+}
+
+// localsOf: every named local of a function with its type and ordinal among
+// the locals of that type (source order).
+func localsOf(fn *ssa.Function) map[string]localType {
+	out := map[string]localType{}
+	var allocs []*ssa.Alloc
+	for _, b := range fn.Blocks {
+		for _, in := range b.Instrs {
+			if a, ok := in.(*ssa.Alloc); ok && a.Comment != "" && a.Comment != "defer$stack" {
+				allocs = append(allocs, a)
+			}
+		}
+	}
+	sort.Slice(allocs, func(i, j int) bool { return allocs[i].Pos() < allocs[j].Pos() })
+	count := map[string]int{}
+	for _, a := range allocs {
+		t := a.Type().String()
+		count[t]++
+		if _, dup := out[a.Comment]; !dup {
+			out[a.Comment] = localType{t, count[t]}
+		}
+	}
+	return out
 }
